@@ -962,8 +962,11 @@ class ProductSpaceElement(LinearSpaceElement):
                         # so we can use recursion to go on.
                         indexed = [p[indices[1:]] for p in part]
 
-                    # Finally make a wrapping space for the indexed elements
-                    new_space = ProductSpace(*(p.space for p in indexed))
+                    # Finally make a wrapping space for the indexed elements,
+                    # weighted like the selected components
+                    new_space = ProductSpace(
+                        *(p.space for p in indexed),
+                        weighting=self.space[indices[0]].weighting)
                     return new_space.element(indexed)
         else:
             raise TypeError('bad index type {}'.format(type(indices)))
